@@ -114,7 +114,6 @@ Definition check (c : c12case) : N :=
   | FlagCase pk ne te fs tmpl nd iadv occs impl istacked =>
       let p := pkg_of pk in
       match flag_regs p ne te fs tmpl with
-      | Err 95 => 0
       | mregs =>
           let madv := omap flag_advertised mregs in
           let model := flag_value p ne te fs tmpl occs in
@@ -126,8 +125,7 @@ Definition check (c : c12case) : N :=
                      | Ok regs => names_ok p te nd regs (paths (alias_fields (flag_alias_keys p) (ptrify_fields fs)))
                      | _ => true end in
           match impl, model with
-          | Panic _, Panic 4 => if same then 14 else 3   (* colliding flattened Go names: known class 4 *)
-          | Panic _, _ => 3                             (* no other panic is ever acceptable *)
+          | Panic _, _ => 3                             (* no panic is ever acceptable *)
           | _, _ => if same then (if nok then 0 else 12) else 3
           end
       end
